@@ -1,1 +1,2 @@
 import Properties.C19
+import Properties.C13
